@@ -217,12 +217,13 @@ static void File_Close(var self) {
     throw(IOError, "Cannot close file - no file open.");
   }
   
+  /* Whatever fclose reports, the stream is gone afterwards */
   int err = fclose(f->file);
+  f->file = NULL;
+  
   if (err != 0) {
     throw(IOError, "Failed to close file: %i", $I(err));
   }
-  
-  f->file = NULL;
 }
 
 static void File_Seek(var self, int64_t pos, int origin) {
@@ -414,12 +415,13 @@ static var Process_Open(var self, var filename, var access) {
 static void Process_Close(var self) {
   struct Process* p = self;
   
+  /* Whatever pclose reports, the stream is gone afterwards */
   int err = pclose(p->proc);
+  p->proc = NULL;
+  
   if (err != 0) {
     throw(IOError, "Failed to close process: %i", $I(err));
   }
-  
-  p->proc = NULL;
 }
 
 static void Process_Seek(var self, int64_t pos, int origin) {
